@@ -1,12 +1,92 @@
 """C12 — Pinocchio fast path ≡ Anchor implementation (translation validation, Engine K)."""
 ID = 'C12'
 LEVEL = 'translation_validation'
-FUNCTIONS = []
+TECHNIQUE = ('differential bounded model checking of the compiled code (Kani/CBMC, SAT): both implementations run on the '
+             'same symbolic account bytes / arguments; same Ok fields, same error code, byte-identical post-state. '
+             'Composition by assume-guarantee: leaf pairs are decided on their own, the composed harness summarises two of them.')
+
+# compared pairs: Pinocchio item  <->  Anchor item   [harness]
+FUNCTIONS = [
+    # memory-mapped views vs Anchor account types
+    'pinocchio::state::whirlpool::MemoryMappedWhirlpool::{tick_spacing, liquidity, sqrt_price, tick_current_index, token_mint_a/b, token_vault_a/b, '
+    'fee_growth_global_a/b, reward_last_updated_timestamp} + DISCRIMINATOR <-> state::Whirlpool::try_deserialize (AccountDeserialize) [c12_view_whirlpool_read]',
+    'MemoryMappedWhirlpoolRewardInfo::{mint, vault, extension, emissions_per_second_x64, growth_global_x64, initialized} <-> Whirlpool.reward_infos[i] / '
+    'WhirlpoolRewardInfo::initialized [c12_view_whirlpool_read_rewards]',
+    'MemoryMappedWhirlpool::seeds <-> Whirlpool::seeds [c12_view_whirlpool_seeds]',
+    'MemoryMappedWhirlpool::update_liquidity_and_reward_growth_global (set_liquidity, set_reward_growth_global, set_reward_last_updated_timestamp) <-> '
+    'Whirlpool::update_rewards_and_liquidity + AccountSerialize::try_serialize [c12_view_whirlpool_write]',
+    'MemoryMappedPosition::{whirlpool, position_mint, liquidity, tick_lower/upper_index, fee_growth_checkpoint_a/b, fee_owed_a/b, reward_infos} + '
+    'MemoryMappedPositionRewardInfo::{growth_inside_checkpoint, amount_owed} + DISCRIMINATOR <-> state::Position::try_deserialize [c12_view_position_read]',
+    'MemoryMappedPosition::update (all private setters) <-> Position::update + try_serialize [c12_view_position_update]',
+    'MemoryMappedTick::{initialized, liquidity_net, liquidity_gross, fee_growth_outside_a/b, reward_growths_outside, update} <-> zero-copy state::Tick fields / '
+    'Tick::update [c12_view_tick_read_write]',
+    'pinocchio TickArray::{check_is_usable_tick_and_get_offset, get_tick (slot address), tick_offset, in_search_range, check_in_array_bounds, is_min_tick_array, '
+    'is_max_tick_array, start_tick_index} on MemoryMappedFixedTickArray / MemoryMappedDynamicTickArray <-> TickArrayType::{check_in_array_bounds, tick_offset, '
+    'in_search_range, is_min/max_tick_array} + Tick::check_is_usable_tick + &FixedTickArray.ticks[i] [c12_tick_offset_pino_spec, c12_tick_offset_equiv_*]',
+    'MemoryMappedDynamicTickArray::{start_tick_index, whirlpool, is_variable_size, tick_bitmap, byte_offset} <-> DynamicTickArrayLoader::{…} [c12_view_dynamic_header]',
+    'pinocchio::state::token::MemoryMappedTokenAccount::{mint, owner, amount, delegate, delegated_amount, is_frozen} + ported::util_shared::pino_is_locked_position '
+    '<-> spl_token::state::Account::unpack / is_frozen [c12_view_token_account_read]',
+    # ported functions
+    'ported::util_shared::pino_verify_position_authority (+ pino_validate_owner) <-> util::verify_position_authority / validate_owner [c12_verify_position_authority_equiv]',
+    'pino_next_tick_modify_liquidity_update <-> manager::tick_manager::next_tick_modify_liquidity_update [c12_tick_modify_equiv]',
+    'pino_next_fee_growths_inside <-> tick_manager::next_fee_growths_inside [c12_fee_growths_inside_equiv]',
+    'pino_next_reward_growths_inside <-> tick_manager::next_reward_growths_inside [c12_reward_growths_inside_equiv]',
+    'pino_next_position_modify_liquidity_update (verif_ wrapper) <-> manager::position_manager::next_position_modify_liquidity_update [c12_position_modify_equiv]',
+    'pino_next_whirlpool_liquidity (verif_ wrapper) <-> manager::whirlpool_manager::next_whirlpool_liquidity [c12_whirlpool_liquidity_equiv]',
+    'pino_next_whirlpool_reward_growth_global (verif_ wrapper) <-> whirlpool_manager::next_whirlpool_reward_infos [c12_reward_growth_global_equiv]',
+    'pino_calculate_modify_tick_array (verif_ wrapper) <-> manager::tick_array_manager::calculate_modify_tick_array [c12_modify_tick_array_equiv]',
+    'pino_calculate_liquidity_token_deltas <-> manager::liquidity_manager::calculate_liquidity_token_deltas [c12_liquidity_token_deltas_equiv]',
+    'pino_calculate_modify_liquidity (+ private _pino_calculate_modify_liquidity) <-> liquidity_manager::calculate_modify_liquidity (+ _calculate_modify_liquidity) '
+    '[c12_calculate_modify_liquidity_equiv]',
+    'pino_sync_modify_liquidity_values <-> liquidity_manager::sync_modify_liquidity_values [c12_sync_modify_liquidity_equiv]',
+]
+
+BOUNDS = [
+    'all 653 / 216 / 113 / 165 account bytes symbolic (discriminator fixed); all i128 deltas, u64 timestamps, i32 tick indexes; loop bounds from the code '
+    '(3 rewards, 7-step shift-subtract division, 32-byte key compares)',
+    'tick-offset differential vs Anchor (% and /): tick_spacing in {1,2,4,…,32768} ∪ {3, 7, 96, 100, 32896, 65535}, every tick index, every valid start index; '
+    'for EVERY tick_spacing >= 1 the Pinocchio routine is decided against its multiplication spec (Some(off) ⇔ in bounds ∧ t − start = off·spacing ∧ off < 88); '
+    'linking that spec to Anchor\'s % and / for a symbolic spacing is Euclid\'s division lemma, which bit-blasting does not close (> 900 s) — see OUTSIDE',
+    'fixed tick array: slot ADDRESSING is decided symbolically (returned reference == &FixedTickArray.ticks[off] == image + 12 + 113·off) and the per-tick data '
+    'path on 113 bytes (MemoryMappedTick vs Tick); reading/writing tick data THROUGH the 9988-byte image does not terminate in CBMC (see OUTSIDE)',
+    'composed harnesses take tick arrays as &dyn TickArray(Type) stand-ins (MockArr: one 113-byte tick, found / not-found, fixed / variable size, update requests '
+    'recorded); memo tables of the uninterpreted functions: 6 entries (bound asserted)',
+]
+
 ASSUMPTIONS = [
     'bool bytes in accounts are 0/1 (every writer stores `as u8` of a bool)',
-    'error conversions replaced by code-preserving stubs; message formatting stubbed',
+    'error conversions (From<ErrorCode> for anchor Error / UnifiedError) replaced by code-preserving stubs; message formatting (alloc::fmt::format) stubbed',
+    'checked_mul_shift_right, checked_mul_div, get_amount_delta_a/b, sqrt_price_from_tick_index replaced by uninterpreted functions shared by both sides '
+    '(same arguments ⇒ same arbitrary Ok/Err outcome; exact for d == 0 and for a zero factor): the arithmetic itself is decided by Engine M (C02, C06, C08, C09)',
+    'invariant: an uninitialised reward (mint == default) has emissions_per_second_x64 == 0 — emissions are only written by set_reward_emissions(_v2) whose '
+    'reward_vault constraint cannot hold for the zero vault key of an uninitialised reward; the Pinocchio port relies on it (skips on emissions == 0 where '
+    'Anchor skips on !initialized)',
+    'invariant: tick-array start index is valid for the pool spacing (Tick::check_is_valid_start_tick, enforced by initialize_tick_array / '
+    'initialize_dynamic_tick_array); tick_spacing >= 1 (FeeTier / AdaptiveFeeTier)',
+    'in c12_calculate_modify_liquidity_equiv the leaf pairs (next_whirlpool_reward_infos, pino_next_whirlpool_reward_growth_global) and '
+    '(next_position_modify_liquidity_update, pino_next_position_modify_liquidity_update) are summarised by record/replay oracles (arbitrary outcome on the Anchor '
+    'side, same outcome on the Pinocchio side iff called with the same arguments, else the harness fails); their equivalence is decided by '
+    'c12_reward_growth_global_equiv and c12_position_modify_equiv',
+    '§2 harnesses build the Anchor structs with hand-written field decoders; c12_view_whirlpool_read, c12_decode_whirlpool_manual_rewards and '
+    'c12_decode_position_manual decide that these equal Whirlpool/Position::try_deserialize on all bytes',
+    'token account images are those spl_token::state::Account::unpack accepts (initialised, well-formed COption tags)',
+    'Anchor DynamicTickArrayLoader maps [u8; MAX_LEN] at data[8..]: 8 bytes beyond a MAX_LEN account are modelled as present (runtime realloc padding)',
 ]
-OUTSIDE = ['CPI builders (account metas); discriminator routing uses Anchor constants by construction']
+
+OUTSIDE = [
+    'CPI builders (account metas: pinocchio::cpi::*, pino_transfer_*), events; discriminator routing in entrypoint.rs uses Anchor constants by construction',
+    'tick-offset equivalence with Anchor for tick spacings outside the 22 listed values (needs the integer lemma: spacing | start ∧ 0 <= t − start < 88·spacing ⇒ '
+    '(t mod spacing = 0 ⇔ ∃ off < 88. t − start = off·spacing) ∧ floor((t − start)/spacing) = off — a two-line NIA obligation for Engine M)',
+    'dynamic tick array tick DATA (get_tick / update_tick with rotate) — C13; here only header, bitmap and byte-offset map',
+    'fixed tick array get_tick/update_tick DATA through the 9988-byte image (frame condition "no other byte written"): every formulation tried ran out of '
+    'memory or time (90 M clauses with a symbolic slot; > 900 s / 40 GB with concrete slot 87). Decided instead: same slot address + same 113-byte tick codec',
+    'MemoryMappedPosition::reset_position_range / is_position_empty / validate_tick_range_for_whirlpool vs Position::reset_position_range: harness over '
+    'Account<Whirlpool> caught the seeded mutation (ignore reward 2) in 175 s but does not finish on the unchanged tree in 900 s — removed; '
+    'keep_owed = true has no Anchor counterpart',
+    'pino_calculate_fee_and_reward_growths as a separate pair (thin wrapper: the composed private function with delta 0, covered by c12_calculate_modify_liquidity_equiv)',
+    'pino_update_tick_array_accounts, pino_ensure_position_has_enough_rent_for_ticks (lamport moves / realloc / Rent sysvar), pino_parse_remaining_accounts, '
+    'pino_calculate_transfer_fee_* (C16), loader.rs (account loading: C04p prefixes)',
+]
 
 
 def run(ctx):
